@@ -246,6 +246,9 @@ func (x *Exec) checkHB(what string) {
 			return
 		}
 	}
+	for _, id := range tids {
+		x.res.Nondets += len(x.hbThreads[id]) + 1 // one symbolic timestamp per event and thread end: the schedule is the symbolic input
+	}
 	x.res.Bounds["hb_threads"] = int64(len(tids))
 	x.res.Bounds["hb_waits"] = int64(nWaits)
 	x.res.Bounds["hb_conflicting_segment_pairs"] = int64(len(pairs))
